@@ -210,6 +210,11 @@ type Handle struct {
 	UsedAfterClose int
 	CloseStamp     vsched.Stamp
 	LastUse        []vsched.Stamp
+	// Detached: the entry at this handle's notified path (or an ancestor) was
+	// removed by UnlinkAt or overwritten by RenameAt; it has no path to be
+	// coherent with, even if its object lives on under another link.
+	Detached bool
+	snap     []string // path snapshot (see PathParts)
 }
 
 var _ p9.File = (*Handle)(nil)
@@ -348,6 +353,7 @@ func (fs *FS) Attach() (p9.File, error) {
 
 func (fs *FS) newHandle(ino *Inode, parent *Handle, name string, c *Call) *Handle {
 	h := &Handle{fs: fs, ID: len(fs.Handles), Ino: ino, Parent: parent, Name: name, Created: c.Seq}
+	h.PathParts() // take the path snapshot now
 	fs.Handles = append(fs.Handles, h)
 	c.NewH = h.ID
 	return h
@@ -484,11 +490,20 @@ func (fs *FS) pathsAccess(write bool) {
 // --- handle helpers ------------------------------------------------------------
 
 // PathParts returns the handle's notified path.
+//
+// Like localfs, a handle stores its path as a string snapshot taken when it
+// was created (parent's path at that moment + name) and replaced only by
+// Renamed (new parent's path at that moment + new name). A descendant of a
+// renamed directory therefore keeps a stale path unless the server notifies
+// it too.
 func (h *Handle) PathParts() []string {
 	if h.Parent == nil {
 		return nil
 	}
-	return append(h.Parent.PathParts(), h.Name)
+	if h.snap == nil {
+		h.snap = append(append([]string{}, h.Parent.PathParts()...), h.Name)
+	}
+	return append([]string{}, h.snap...)
 }
 
 // PathString is "/a/b" ("/" for the root).
@@ -512,7 +527,7 @@ func (h *Handle) node(c *Call) *Inode {
 			break
 		}
 	}
-	if h.Ino.NLink > 0 {
+	if h.Ino.NLink > 0 && !h.Detached {
 		if got := fs.Resolve(h.PathParts()); got != h.Ino {
 			actual, _ := fs.PathOf(h.Ino)
 			fs.problem("incoherent-path", c, fmt.Sprintf("%s: handle %d was told it is at %s but its object #%d is at %s", c.Method, h.ID, h.PathString(), h.Ino.ID, actual))
@@ -578,6 +593,7 @@ func (h *Handle) walk(c *Call, names []string) ([]p9.QID, *Handle, error) {
 		qids = append(qids, next.QID())
 		// Intermediate handles for multi-component walks (clients only).
 		nh := &Handle{fs: fs, ID: -1, Ino: next, Parent: parent, Name: n}
+		nh.PathParts()
 		parent = nh
 		cur = next
 	}
@@ -1125,6 +1141,19 @@ func (h *Handle) Rename(newDir p9.File, newName string) error {
 	return linux.ENOSYS
 }
 
+// detachHandles marks every open handle at or below path as detached.
+func (fs *FS) detachHandles(path string) {
+	for _, h := range fs.Handles {
+		if h.Closed > 0 || h.Detached {
+			continue
+		}
+		p := h.PathString()
+		if p == path || strings.HasPrefix(p, path+"/") {
+			h.Detached = true
+		}
+	}
+}
+
 func (fs *FS) detach(n *Inode) {
 	n.NLink--
 	if n.NLink <= 0 && n.IsDir() {
@@ -1188,7 +1217,15 @@ func (h *Handle) RenameAt(oldName string, newDir p9.File, newName string) error 
 			c.Err = linux.ENOTEMPTY
 			return linux.ENOTEMPTY
 		}
+		// the target must not be an ancestor of the source
+		for p := fs.parentOf(n); p != nil; p = fs.parentOf(p) {
+			if p == old {
+				c.Err = linux.ENOTEMPTY
+				return linux.ENOTEMPTY
+			}
+		}
 		fs.detach(old)
+		fs.detachHandles(strings.TrimSuffix(nd.PathString(), "/") + "/" + newName)
 	}
 	// moving a directory below itself
 	if n.IsDir() {
@@ -1255,6 +1292,7 @@ func (h *Handle) UnlinkAt(name string, flags uint32) error {
 	}
 	delete(dir.Children, name)
 	fs.detach(n)
+	fs.detachHandles(c.Victim)
 	return nil
 }
 
@@ -1335,6 +1373,8 @@ func (h *Handle) Renamed(newDir p9.File, newName string) {
 		h.Parent = nd
 	}
 	h.Name = newName
+	h.snap = nil
+	h.PathParts() // new snapshot from the new parent's current path
 }
 
 // LiveHandles returns the ids of handles not yet closed.
